@@ -18,6 +18,7 @@ inductive Role where
   | any     -- documented as callable from any goroutine
   | ctl     -- the one controlling goroutine: Start / Run / Stop, while the loop may be running
   | quiet   -- the controlling goroutine after its Stop() has returned (Terminate's body): the loop goroutine is out
+  | side    -- a timer-side goroutine: the time.AfterFunc callback of a Timer, the `run` goroutine of an Interval
   deriving DecidableEq, Repr
 
 open Role in
@@ -73,6 +74,35 @@ def pairOK (a b : Access) : Bool :=
   || protocolOrdered.contains (a.fn, a.field) || protocolOrdered.contains (b.fn, b.field)
 
 def raceFree (t : List Access) : Bool := t.all fun a => t.all fun b => pairOK a b
+
+/-! ## fields of the job objects (Timer, Interval, Immediate) -/
+
+open Role in
+/-- roles for the job-field table: constructors work on an object nobody else has yet -/
+def jobRoleTable : List (String × Role) := [
+  ("EventLoop.newTimeout", init), ("EventLoop.newInterval", init), ("EventLoop.addImmediate", init),
+  ("Interval.run", side), ("Timer.start$lit1", side),
+  ("Timer.start", loop), ("Interval.start", loop), ("Timer.doCancel", loop), ("Interval.doCancel", loop)
+]
+
+def jobRoleOf (fn : String) : Option Role :=
+  match jobRoleTable.find? (·.1 == fn) with
+  | some p => some p.2
+  | none => roleOf fn
+
+/-- `i.ticker` is written in `Interval.start` immediately before `go i.run(loop)`: the go statement orders the write
+before everything the new goroutine does -/
+def jobProtocolOrdered : List (String × String) := [("Interval.run", "ticker")]
+
+def jobPairOK (a b : Access) : Bool :=
+  a.field != b.field || !(a.write || b.write)
+  || (match jobRoleOf a.fn, jobRoleOf b.fn with
+      | some r1, some r2 => !conc r1 r2
+      | _, _ => false)
+  || protectedPair a b
+  || jobProtocolOrdered.contains (a.fn, a.field) || jobProtocolOrdered.contains (b.fn, b.field)
+
+def jobRaceFree (t : List Access) : Bool := t.all fun a => t.all fun b => jobPairOK a b
 
 /-! ## the shared Registry: compile once -/
 
